@@ -7,6 +7,7 @@ import Driver.ParseDrv
 import Driver.TopoDrv
 import Driver.GraphDrv
 import Driver.GenDrv
+import Driver.DetDrv
 open Pushr
 
 def handleLine (line : String) : String :=
@@ -14,6 +15,10 @@ def handleLine (line : String) : String :=
   | some [.list (.atom kind :: rest)] =>
     match kind with
     | "stackop" => StackDrv.handle rest
+    | "detrun" => DetDrv.handleDet rest
+    | "ids" => DetDrv.handleIds rest
+    | "cli" => DetDrv.handleCli rest
+    | "srcscan" => DetDrv.handleScan rest
     | "gen" => GenDrv.handle rest
     | "graphseq" => GraphDrv.handle rest
     | "topo" => TopoDrv.handle rest
